@@ -206,11 +206,28 @@ def install_lemmas():
     def _ms():
         """if r is the makespan before an accepted dispatch then max(r, end of the new
         operation) is the makespan after it (so MakespanReward.update's pre-condition holds
-        whenever its record was right before the dispatch)"""
+        whenever its record was right before the dispatch).  Guided: the machine attaining r is
+        named (exists-elimination), the machine attaining the new maximum is given explicitly."""
         h0, h1, d, o, m, x, pc, D0, D1 = _dispatch_step()
-        r = fresh("r")
-        return [("makespan-after-is-max-of-before-and-new-end", pc + [is_makespan(h0, d, r)],
-                 is_makespan(h1, d, zmax(r, D1.end(x))))]
+        r, m0, mq = fresh("r"), fresh("m0"), fresh("mq")
+        e = D1.end(x)
+        new = zmax(r, e)
+        last0 = lambda t: D0.end(D0.x(t, D0.nS(t) - 1))
+        last1 = lambda t: D1.end(D1.x(t, D1.nS(t) - 1))
+        mm = bv("mm")
+        ge0 = forall([mm], imp(z3.And(rng(mm, 0, D0.M), D0.nS(mm) > 0), r >= last0(mm)), patterns=[D0.Sm(mm)])
+        pre = pc + [r >= 0, ge0, z3.Or(r == 0, z3.And(rng(m0, 0, D0.M), D0.nS(m0) > 0, r == last0(m0)))]
+        at = lambda t: z3.And(rng(t, 0, D1.M), D1.nS(t) > 0, new == last1(t))
+        out = [
+            ("new-end-is-the-last-end-of-the-chosen-machine", pre, z3.And(rng(m, 0, D1.M), D1.nS(m) > 0, last1(m) == e)),
+            ("no-last-end-exceeds-the-new-maximum", pre + [rng(mq, 0, D1.M), D1.nS(mq) > 0], new >= last1(mq)),
+            ("the-new-maximum-is-attained", pre + [last1(m) == e, rng(m, 0, D1.M), D1.nS(m) > 0],
+             z3.Or(new == 0, at(m), at(m0))),
+        ]
+        ge1 = forall([mm], imp(z3.And(rng(mm, 0, D1.M), D1.nS(mm) > 0), new >= last1(mm)), patterns=[D1.Sm(mm)])
+        out.append(("makespan-after-is-max-of-before-and-new-end",
+                    [new >= 0, ge1, z3.Or(new == 0, at(m), at(m0))], is_makespan(h1, d, new)))
+        return out
 
     @lemma("dispatch-idle-step", ("C13",))
     def _idle():
